@@ -102,10 +102,29 @@ func argStackProblems(c *Ctx, get func(recv, name string) *ast.FuncDecl) map[str
 				continue
 			}
 			n++
+			// what the scope needs after the call is that it holds the name: appended, or found there already (a label
+			// bound twice in one scope is one parameter of the generated method - C04-o)
+			present := false
+			inScope := map[string]bool{top + "[#1]==" + x + ".Val": true, x + ".Val==" + top + "[#1]": true, "slices.Contains(" + top + "," + x + ".Val)": true}
+			notInScope := map[string]bool{top + "[#1]!=" + x + ".Val": true, x + ".Val!=" + top + "[#1]": true, "!slices.Contains(" + top + "," + x + ".Val)": true}
 			for _, f := range p.facts() {
+				f = minParens(f)
+				if inScope[f] {
+					present = true
+					continue
+				}
+				if notInScope[f] {
+					continue
+				}
 				if f != x+"!=nil" && !strings.HasPrefix(f, "len("+st+")") {
 					add("addArg", "a label is registered only under `"+f+"`: a code block in the current scope does not receive a label that is in its scope")
 				}
+			}
+			if present {
+				if len(sets) != 0 {
+					add("addArg", "a label the innermost scope already holds is stored again (stores: "+strings.Join(sets, " ; ")+")")
+				}
+				continue
 			}
 			if len(sets) != 1 || sets[0] != want {
 				add("addArg", "a present label is not appended to the innermost scope (stores: "+strings.Join(sets, " ; ")+") ["+strings.Join(p.facts(), " ")+"]")
